@@ -285,7 +285,11 @@ def part_c(ctx):
                 subsets = [set(c) for k in range(len(optional) + 1) for c in itertools.combinations(optional, k)]
             else:
                 subsets = [set(x for x in optional if r.random() < 0.5) for _ in range(ctx.n(2, 6))]
+            trio = {"call_genotype", "call_genotype_mask", "call_genotype_phased"}
+            has_trio = trio <= {sp.name for sp in schema.fields}
             for si, drop in enumerate(subsets[: ctx.n(4, 16)]):
+                if has_trio and r.random() < 0.35:
+                    drop = set(drop) | trio     # a store without genotypes: the three arrays go together
                 sd = json.loads(schema.asjson())
                 sd["fields"] = [f for f in sd["fields"] if f["name"] not in drop]
                 edits = {}
@@ -322,8 +326,8 @@ def part_c(ctx):
                     continue
                 got = store_arrays(out)
                 want_names = {f["name"] for f in sd["fields"]}
-                if set(got) - {"region_index"} != want_names | {"contig_id", "contig_length", "filter_id", "sample_id"} & (set(got) | want_names) and \
-                        (set(got) - {"region_index", "contig_id", "contig_length", "filter_id", "sample_id"}) != want_names:
+                stored = set(got) - {"region_index", "contig_id", "contig_length", "filter_id", "sample_id"}
+                if stored != want_names:
                     ctx.fail(ed, dict(arrays=sorted(got), listed=sorted(want_names)), "arrays written differ from the arrays listed in the schema")
                 for f in sd["fields"]:
                     nm = f["name"]
